@@ -15,8 +15,10 @@
 use alloc::boxed::Box;
 use core::fmt;
 
-#[cfg(not(vmap_cap6))]
+#[cfg(not(any(vmap_cap3, vmap_cap6)))]
 pub const CAP: usize = 4;
+#[cfg(vmap_cap3)]
+pub const CAP: usize = 3;
 #[cfg(vmap_cap6)]
 pub const CAP: usize = 6;
 
